@@ -13,7 +13,10 @@ import (
 	"errors"
 	"fmt"
 	"math"
+	"os"
+	"os/exec"
 	"reflect"
+	"strings"
 
 	"github.com/ctessum/geom"
 	"github.com/ctessum/geom/proj"
@@ -79,6 +82,18 @@ var catalogue = []def{
 	{"+proj=krovak +ellps=bessel +towgs84=570.8,85.7,462.8,4.998,1.587,5.261,3.56 +units=m +no_defs", "", false},
 	{"+proj=longlat +a=6371000 +b=6371000 +no_defs", "", true},
 	{"+proj=longlat +ellps=bessel +towgs84=582,105,414,1.04,0.35,-3.08,8.3 +pm=ferro +axis=wnu +no_defs", "", true},
+	// a projection whose constructor fills in the ellipsoid itself, named
+	// without one (first call on a cold reference vs later calls)
+	{"+proj=krovak +towgs84=570.8,85.7,462.8,4.998,1.587,5.261,3.56 +units=m +no_defs", "", false},
+	{"+proj=krovak +lat_0=49.5 +lon_0=24.83333333333333 +k=0.9999 +towgs84=589,76,480 +units=m +no_defs", "", false},
+	// different systems that carry the same label (title / WKT name)
+	{"+title=custom +proj=utm +zone=10 +datum=WGS84 +units=m +no_defs", "", false},
+	{"+title=custom +proj=utm +zone=33 +datum=WGS84 +units=m +no_defs", "", false},
+	{"+title=custom +proj=longlat +ellps=clrk66 +towgs84=-8,160,176 +no_defs", "", true},
+	{`PROJCS["unnamed",GEOGCS["GCS_WGS_1984",DATUM["D_WGS_1984",SPHEROID["WGS_1984",6378137.0,298.257223563]],PRIMEM["Greenwich",0.0],UNIT["Degree",0.0174532925199433]],PROJECTION["Transverse_Mercator"],PARAMETER["False_Easting",500000.0],PARAMETER["False_Northing",0.0],PARAMETER["Central_Meridian",-93.0],PARAMETER["Scale_Factor",0.9996],PARAMETER["Latitude_Of_Origin",0.0],UNIT["Meter",1.0]]`, "", false},
+	{`PROJCS["unnamed",GEOGCS["GCS_WGS_1984",DATUM["D_WGS_1984",SPHEROID["WGS_1984",6378137.0,298.257223563]],PRIMEM["Greenwich",0.0],UNIT["Degree",0.0174532925199433]],PROJECTION["Transverse_Mercator"],PARAMETER["False_Easting",200000.0],PARAMETER["False_Northing",1000.0],PARAMETER["Central_Meridian",15.0],PARAMETER["Scale_Factor",1.0],PARAMETER["Latitude_Of_Origin",0.0],UNIT["Meter",1.0]]`, "", false},
+	{`PROJCS["unnamed",GEOGCS["GCS_North_American_1983",DATUM["D_North_American_1983",SPHEROID["GRS_1980",6378137.0,298.257222101]],PRIMEM["Greenwich",0.0],UNIT["Degree",0.0174532925199433]],PROJECTION["Lambert_Conformal_Conic"],PARAMETER["False_Easting",0.0],PARAMETER["False_Northing",0.0],PARAMETER["Central_Meridian",-97.0],PARAMETER["Standard_Parallel_1",33.0],PARAMETER["Standard_Parallel_2",45.0],PARAMETER["Latitude_Of_Origin",40.0],UNIT["Meter",1.0]]`, "", false},
+	{`GEOGCS["GCS_WGS_1984",DATUM["D_WGS_1984",SPHEROID["WGS_1984",6378137.0,298.257223563]],PRIMEM["Greenwich",0.0],UNIT["Degree",0.0174532925199433]]`, "", true},
 }
 
 func (d def) freshText() string {
@@ -166,6 +181,38 @@ func freshCall(a, b def, x, y float64) callResult {
 		r.panicked, r.pmsg = true, fmt.Sprint(v)
 	}
 	return r
+}
+
+// TableLines evaluates a fresh transformer for every ordered pair of catalogue
+// entries at one fixed position, visiting the pairs forwards or backwards, and
+// returns one line per pair. Run in two pristine processes with the two orders
+// it exposes state that outlives the spatial references themselves: a
+// process-global cache keyed too coarsely makes the first-used definition win,
+// so the two tables differ.
+func TableLines(reverse bool) []string {
+	n := len(catalogue)
+	type pr struct{ a, b int }
+	var pairs []pr
+	for a := 0; a < n; a++ {
+		for b := 0; b < n; b++ {
+			pairs = append(pairs, pr{a, b})
+		}
+	}
+	if reverse {
+		for i, j := 0, len(pairs)-1; i < j; i, j = i+1, j-1 {
+			pairs[i], pairs[j] = pairs[j], pairs[i]
+		}
+	}
+	out := make([]string, len(pairs))
+	for _, p := range pairs {
+		x, y := -93.0, 45.0
+		if !catalogue[p.a].ll {
+			x, y = 500000, 4000000
+		}
+		r := freshCall(catalogue[p.a], catalogue[p.b], x, y)
+		out[p.a*n+p.b] = fmt.Sprintf("%d %d %v", p.a, p.b, r)
+	}
+	return out
 }
 
 var registryNames = []string{"WGS84", "EPSG:4326", "EPSG:4269", "EPSG:3857", "GOOGLE"}
@@ -271,7 +318,7 @@ func (e *engine) Info() core.Info {
 	return core.Info{
 		Prop:  "C10",
 		Level: "exploration",
-		Rule:  "a case is one seeded history: a pool of 2-6 spatial references parsed from a 36-entry catalogue (registry names = shared pointers, 3- and 7-parameter datums needing the WGS84 hop, same-datum pairs, non-enu axis orders, +pm, +units, +nadgrids), 2-4 simulated clients that build transformers over the shared pool and whose calls the tape interleaves (<=60 operations, positions inside and outside the usable region), plus Geom.Transform on all eight geometry types (collections nested up to 40 levels, closed rings, signed zeros, huge values) with a pure sign-of-zero-sensitive stub transformer, optionally re-entrant (it runs another Geom.Transform from inside), wrapped by a fault injector that fails on a tape-chosen vertex; non-trivial = some transformer was called at least twice AND another transformer sharing one of its spatial references was called in between, or a fault fired on a non-first vertex of a multi-part geometry; distinct = distinct hash of the operation/result log",
+		Rule:  "a case is one seeded history: a pool of 2-6 spatial references parsed from a 45-entry catalogue (PROJ.4 and WKT) (registry names = shared pointers, 3- and 7-parameter datums needing the WGS84 hop, same-datum pairs, non-enu axis orders, +pm, +units, +nadgrids), 2-4 simulated clients that build transformers over the shared pool and whose calls the tape interleaves (<=60 operations, positions inside and outside the usable region), plus Geom.Transform on all eight geometry types (collections nested up to 40 levels, closed rings, signed zeros, huge values) with a pure sign-of-zero-sensitive stub transformer, optionally re-entrant (it runs another Geom.Transform from inside), wrapped by a fault injector that fails on a tape-chosen vertex; non-trivial = some transformer was called at least twice AND another transformer sharing one of its spatial references was called in between, or a fault fired on a non-first vertex of a multi-part geometry; distinct = distinct hash of the operation/result log",
 		Real:  []string{"proj.Parse, (*SR).NewTransform and its closures, Transformers(), datumTransform, adjust_axis, all projection kernels reached by the catalogue", "Geom.Transform for Point, MultiPoint, LineString, MultiLineString, Polygon, MultiPolygon, GeometryCollection, *Bounds"},
 		Stubs: []string{"for the Geom.Transform clauses: a pure affine stub transformer wrapped by the fault injector (the proj.Transformer function type is the seam)", "fresh-world oracle: same real code, newly parsed references, single call"},
 		FaultKinds: []string{
@@ -322,7 +369,11 @@ func (e *engine) Run(t *tape.Tape, trace bool) core.Result {
 			res.Probe("registry-object-changed-before-run:" + n)
 		}
 	}
-	r.exec()
+	if t.OneIn(20000, "order-table-run") {
+		r.tableRun()
+	} else {
+		r.exec()
+	}
 	if res.Viol == nil {
 		r.checkCanaries()
 	}
@@ -339,6 +390,39 @@ func (r *run) fail(class, detail, format string, a ...interface{}) {
 	if r.res.Viol == nil {
 		r.res.Viol = &core.Violation{Class: class, Detail: detail, Msg: fmt.Sprintf(format, a...)}
 		r.log.Violation(class, r.res.Viol.Msg)
+	}
+}
+
+// tableRun compares the catalogue table computed by two pristine child
+// processes that visit the pairs in opposite orders.
+func (r *run) tableRun() {
+	r.log.Event("order-table run")
+	r.res.Probe("order-table-run(two pristine processes, opposite orders)")
+	exe, err := os.Executable()
+	if err != nil {
+		panic("harness: " + err.Error())
+	}
+	var tabs [2][]string
+	for i, ord := range []string{"fwd", "rev"} {
+		out, err := exec.Command(exe, "c10-table", "-order", ord).Output()
+		if err != nil {
+			r.fail("order-table-child-died", ord, "the child process computing the catalogue table (%s order) died: %v", ord, err)
+			return
+		}
+		tabs[i] = strings.Split(strings.TrimSpace(string(out)), "\n")
+	}
+	if len(tabs[0]) != len(tabs[1]) {
+		r.fail("process-order-dependent", "table-size", "tables have %d and %d lines", len(tabs[0]), len(tabs[1]))
+		return
+	}
+	r.res.Steps = int64(len(tabs[0]))
+	for i := range tabs[0] {
+		if tabs[0][i] != tabs[1][i] {
+			var a, b int
+			fmt.Sscanf(tabs[0][i], "%d %d", &a, &b)
+			r.fail("process-order-dependent", "", "a fresh transformer %s -> %s gives a different result depending on which other definitions were used earlier in the process: %q when all pairs are visited forwards, %q when visited backwards", short(catalogue[a].name), short(catalogue[b].name), tabs[0][i], tabs[1][i])
+			return
+		}
 	}
 }
 
@@ -578,7 +662,30 @@ func (g *gctx) pts(max int, label string) []geom.Point {
 	return out
 }
 
+// gen builds a geometry; one in ten is handed out as a pointer to the value
+// (a *Point from geom.NewPoint, &lineString, &polygon are legal Geoms too).
 func (g *gctx) gen(depth int) geom.Geom {
+	v := g.genValue(depth)
+	if depth > 0 && g.r.t.OneIn(10, "pointer-typed") {
+		switch x := v.(type) {
+		case geom.Point:
+			g.r.res.Probe("pointer-typed-member")
+			return &x
+		case geom.LineString:
+			g.r.res.Probe("pointer-typed-member")
+			return &x
+		case geom.Polygon:
+			g.r.res.Probe("pointer-typed-member")
+			return &x
+		case geom.MultiPoint:
+			g.r.res.Probe("pointer-typed-member")
+			return &x
+		}
+	}
+	return v
+}
+
+func (g *gctx) genValue(depth int) geom.Geom {
 	t := g.r.t
 	n := 8
 	if depth >= 3 {
@@ -648,7 +755,36 @@ func (g *gctx) gen(depth int) geom.Geom {
 	}
 }
 
+// deref turns a pointer-typed geometry into its value.
+func deref(g geom.Geom) geom.Geom {
+	switch v := g.(type) {
+	case *geom.Point:
+		return *v
+	case *geom.LineString:
+		return *v
+	case *geom.Polygon:
+		return *v
+	case *geom.MultiPoint:
+		return *v
+	}
+	return g
+}
+
 func deepCopy(g geom.Geom) geom.Geom {
+	switch v := g.(type) {
+	case *geom.Point:
+		c := *v
+		return &c
+	case *geom.LineString:
+		c := append(geom.LineString{}, (*v)...)
+		return &c
+	case *geom.Polygon:
+		c := deepCopy(*v).(geom.Polygon)
+		return &c
+	case *geom.MultiPoint:
+		c := append(geom.MultiPoint{}, (*v)...)
+		return &c
+	}
 	switch v := g.(type) {
 	case geom.Point:
 		return v
@@ -689,6 +825,7 @@ func deepCopy(g geom.Geom) geom.Geom {
 
 // expected builds the geometry Transform must return for the stub transformer.
 func expected(g geom.Geom) geom.Geom {
+	g = deref(g) // a pointer-typed input may come back as pointer or value: compared by value
 	f := func(p geom.Point) geom.Point { x, y := stub(p.X, p.Y); return geom.Point{X: x, Y: y} }
 	fs := func(ps []geom.Point) []geom.Point {
 		o := make([]geom.Point, len(ps))
@@ -740,6 +877,7 @@ func sameGeom(a, b geom.Geom) bool {
 	if a == nil || b == nil {
 		return a == nil && b == nil
 	}
+	a, b = deref(a), deref(b)
 	if reflect.TypeOf(a) != reflect.TypeOf(b) {
 		return false
 	}
